@@ -25,6 +25,7 @@
 #include "hep/mc/multi_channel_summary.hpp"
 
 #include <cmath>
+#include <cstdio>
 #include <fstream>
 #include <iostream>
 #include <string>
@@ -131,8 +132,18 @@ public:
         if ((mode_ == callback_mode::silent_and_write_chkpt) ||
             (mode_ == callback_mode::verbose_and_write_chkpt))
         {
-            std::ofstream out(filename_);
+            // write the checkpoint into a temporary file and rename it afterwards, so that the file
+            // `filename_` is a complete checkpoint at all times, even if the program is killed
+            // while the checkpoint is being written
+            std::string const tmp_filename = filename_ + ".tmp";
+            std::ofstream out(tmp_filename);
             chkpt.serialize(out);
+            out.close();
+
+            if (out)
+            {
+                std::rename(tmp_filename.c_str(), filename_.c_str());
+            }
         }
 
         return perform_more_iterations;
